@@ -1,6 +1,7 @@
 package main
 
 import (
+	"encoding/hex"
 	"encoding/json"
 	"flag"
 	"fmt"
@@ -153,6 +154,10 @@ type l1Result struct {
 	obs     map[string]any
 	resp    map[string]any
 	crashed bool
+	// opaque: the query with literal and comment interiors blanked parses into the same
+	// node structure (true when there is nothing to blank)
+	opaque  bool
+	blanked string
 }
 
 // l1Eval runs one query through implementation and model.
@@ -177,6 +182,22 @@ func l1Eval(cl *lean.Client, q string) (*l1Result, error) {
 	}
 	resp, err := cl.Call(map[string]any{"k": "l1", "q": hx(q), "cls": clsOf(q), "obs": obs, "shifts": shifts})
 	res.resp = resp
+	res.opaque = true
+	if err == nil && hooksAvailable {
+		if bh, ok := resp["blank"].(string); ok {
+			if bq, e := hex.DecodeString(bh); e == nil && string(bq) != q {
+				res.blanked = string(bq)
+				bo, ok := implParseTimed(res.blanked)
+				if !ok || bo["panic"] != nil {
+					res.crashed = true
+				} else if r2, e2 := cl.Call(map[string]any{"k": "l1op", "a": obs, "b": bo}); e2 == nil {
+					res.opaque = getBool(r2, "same")
+				} else {
+					err = e2
+				}
+			}
+		}
+	}
 	return res, err
 }
 
@@ -184,12 +205,12 @@ func (r *l1Result) bad() bool {
 	if r.crashed {
 		return true
 	}
-	return !getBool(r.resp, "agree") || !getBool(r.resp, "c01") || !getBool(r.resp, "c02") ||
+	return !getBool(r.resp, "agree") || !getBool(r.resp, "c01") || !getBool(r.resp, "c02") || !r.opaque ||
 		!getBool(r.resp, "c19") || getBool(r.resp, "fuel")
 }
 
 func (r *l1Result) holds() map[string]bool {
-	return map[string]bool{"C01": getBool(r.resp, "c01"), "C02": getBool(r.resp, "c02"),
+	return map[string]bool{"C01": getBool(r.resp, "c01"), "C02": getBool(r.resp, "c02") && r.opaque,
 		"C19": getBool(r.resp, "c19"), "C18": !r.crashed && !getBool(r.resp, "fuel")}
 }
 
@@ -249,6 +270,9 @@ func l1Case(q string) map[string]any {
 }
 
 func l1Finding(r *l1Result, kind, detail string, shrunk bool) Finding {
+	if !r.opaque {
+		detail += fmt.Sprintf("; the same query with the contents of its literals and comments blanked (%s) is parsed into a different node structure", printable(r.blanked))
+	}
 	return Finding{Case: l1Case(r.q), Kind: kind, Detail: detail, Holds: r.holds(),
 		Impl: r.obs, Model: r.resp["model"], Shrunk: shrunk}
 }
